@@ -157,6 +157,53 @@ fn random_hostile_names(src: &mut Src, obs: &mut Obs) -> Res {
     check(&q, &text, &doc, obs)
 }
 
+/// "k is one of (...)" as a query builder writes it: a chain of 2-9 alternatives over one operand, listed in
+/// any order, some of them equal (`3` and `3.0`): the kept elements come in index order, each once
+fn random_or_chains(src: &mut Src, obs: &mut Obs) -> Res {
+    let n = 3 + src.below(10);
+    let scalars = [J::Int(1), J::Int(2), J::Int(3), J::Float(3.0), J::Int(4), J::Int(5), J::Int(6), J::Str("a".into()), J::Str("b".into()), J::Null, J::Bool(true)];
+    let records = src.bool();
+    let rows: Vec<J> = (0..n)
+        .map(|_| {
+            let v = src.pick(&scalars).clone();
+            if records {
+                if src.chance(1, 8) {
+                    J::Obj(vec![])
+                } else {
+                    J::Obj(vec![("id".to_string(), v)])
+                }
+            } else {
+                v
+            }
+        })
+        .collect();
+    let as_object = src.chance(1, 4);
+    let doc = if as_object { J::Obj(rows.into_iter().enumerate().map(|(i, r)| (format!("k{:02}", i), r)).collect()) } else { J::Arr(rows) };
+    let operand = if records { *src.pick(&["@.id", "@['id']"]) } else { "@" };
+    let lits = ["1", "2", "3", "3.0", "4", "5", "6", "'a'", "'b'", "null", "true", "7"];
+    let k = 2 + src.below(8);
+    let alts: Vec<String> = (0..k)
+        .map(|_| {
+            let l = src.pick(&lits);
+            match src.below(12) {
+                0 => format!("{} == {}", l, operand),
+                1 => format!("{} != {}", operand, l),
+                _ => format!("{} == {}", operand, l),
+            }
+        })
+        .collect();
+    let text = format!("$[?{}]", alts.join(" || "));
+    let q = match crate::recog::parse_ast(&text) {
+        Some(q) => q,
+        None => return Err(Failure::new("harness inconsistency: the or-chain family produced a query outside the recogniser's language", json!({"query": text}))),
+    };
+    obs.label("or-chain");
+    if crate::oracle::eval(&q, &doc, &crate::oracle::Quirks::strict()).len() >= 2 {
+        obs.nontrivial(&(text.as_str(), doc.text()), || json!({"query": text, "doc": doc.to_value()}));
+    }
+    check(&q, &text, &doc, obs)
+}
+
 fn src_blank(src: &mut Src) -> bool {
     src.chance(1, 3)
 }
@@ -275,6 +322,7 @@ pub fn prop() -> Prop {
                 name: "random-order",
                 kind: Kind::Random { f: random_order, quick: 200_000, thorough: 4_000_000, len: 400 },
             },
+            Sub { name: "random-or-chains", kind: Kind::Random { f: random_or_chains, quick: 40_000, thorough: 800_000, len: 200 } },
             Sub { name: "random-hostile-names", kind: Kind::Random { f: random_hostile_names, quick: 80_000, thorough: 1_600_000, len: 400 } },
             Sub { name: "random-member-order-of-the-view", kind: Kind::Random { f: random_member_order_of_the_view, quick: 100_000, thorough: 2_000_000, len: 500 } },
             Sub {
